@@ -91,10 +91,11 @@ class Store:
 class NDArr:
     """abstract numpy array: a view onto a storage"""
 
-    def __init__(self, store, view='whole', dtype=None):
+    def __init__(self, store, view='whole', dtype=None, pred=None):
         self.store = store
         self.view = view
         self.dtype = dtype
+        self.pred = pred            # element-wise predicate this boolean array stands for (IEEE semantics)
 
     def __repr__(self):
         return f'<ndarray {self.store} {self.view}>'
@@ -575,7 +576,14 @@ class Interp:
                     return big if less else (not big)
         if isinstance(a, Opaque) or isinstance(b, Opaque) or isinstance(a, NDArr) or isinstance(b, NDArr):
             if isinstance(a, NDArr) or isinstance(b, NDArr):
-                return NDArr(Store(f'fresh@{getattr(node, "lineno", 0)}', None), dtype='bool')
+                pred = None
+                arr, other, flip = (a, b, False) if isinstance(a, NDArr) else (b, a, True)
+                if isinstance(other, (int, float)) and not isinstance(other, bool):
+                    opn = type(op).__name__
+                    if flip:
+                        opn = dict(Lt='Gt', Gt='Lt', LtE='GtE', GtE='LtE').get(opn, opn)
+                    pred = ('cmp', opn, float(other), arr.store.uid, arr.store.version)
+                return NDArr(Store(f'fresh@{getattr(node, "lineno", 0)}', None), dtype='bool', pred=pred)
             return self.ctx.fresh_bool('cmp')
         if not is_sym(a) and not is_sym(b):
             try:
